@@ -427,4 +427,32 @@ theorem utf8Valid_slice {data : List Nat} {a b : Nat} (hv : utf8Valid data = tru
     (by simp only [List.length_drop]; omega) (isBoundary_drop hab hb hb')).2
 
 
+
+theorem structChildren_ok {len : Nat} : ∀ (fs : List Field) (cs : List ArrayData),
+    cs.length = fs.length → structChildren len fs cs = .ok →
+    fieldsMatch (fun f c => decide (c.type = f.2.1) && decide (len ≤ c.len)) fs cs = true
+  | [], [], _, _ => rfl
+  | [], _ :: _, h, _ => by simp at h
+  | _ :: _, [], h, _ => by simp at h
+  | f :: fs, c :: cs, hl, h => by
+    unfold structChildren at h
+    rw [andThen_ok, andThen_ok, andThen_ok, errIf_ok, errIf_ok] at h
+    obtain ⟨h1, _, h3, h4⟩ := h
+    simp only [fieldsMatch, Bool.and_eq_true, decide_eq_true_eq]
+    refine ⟨⟨by simpa using h1, by simpa using h3⟩, structChildren_ok fs cs (by simpa using hl) h4⟩
+
+theorem validate_struct_parts {d : ArrayData} {fields : Fields}
+    (h : validate d = .ok) (ht : d.type = .struct fields) :
+    d.children.length = fields.toList.length ∧ structChildren d.len fields.toList d.children = .ok := by
+  cases d with
+  | mk t l o n bs cs =>
+  simp only at ht
+  subst ht
+  unfold validate at h
+  rw [andThen_ok, andThen_ok] at h
+  have := h.2.1
+  rw [andThen_ok, errIf_ok] at this
+  exact ⟨by simpa using this.1, this.2⟩
+
+
 end ArrowModel.C09
